@@ -38,7 +38,7 @@ COMMENTS = [
     rep(A.text('&mut dyn Write'), '&mut WriteSink', tag='T7'),
     ins(A.ret(), '(r: ', where='before'), ins(A.ret(), ')', where='after'),
     ins(A.sig(), '''
-        ensures /*C15: the block comment ends exactly where the writer ends it*/
+        ensures /*C15 C10: the block comment ends exactly where the writer ends it*/
             r is Ok ==> (comments@.len() == 0 ==> final(w)@ == old(w)@)
                 && (comments@.len() > 0 ==> exists|t: Seq<char>| #[trigger] block_commented(t) && final(w)@ == old(w)@ + t),
 ''', cid='write_comments.contract'),
